@@ -5,7 +5,7 @@ from .core import Check, tlc
 from .checks_codes import _seed_of, _finish_codes, _bg, _join
 
 
-def run_stress(variant, args, timeout=300, env=None):
+def run_stress(variant, args, timeout=900, env=None):
     bdir = core.build(variant)
     e = dict(os.environ)
     e.update(core.run_env(bdir, env))
@@ -29,7 +29,7 @@ def run_stress(variant, args, timeout=300, env=None):
             "stderr_tail": p.stderr[-1500:], "wall": time.time() - t0, "args": list(args)}
 
 
-def run_sched(variant, lines, name, timeout=900):
+def run_sched(variant, lines, name, timeout=2400):
     bdir = core.build(variant)
     wd = core.workdir(name)
     # several processes in parallel: the scenarios are independent
@@ -110,7 +110,7 @@ def c18():
                 src = src.replace("SharedUsers = {3}", "SharedUsers = {4, 5}")
             name = name + "_big"
             open(os.path.join(core.SPEC, name + ".cfg"), "w").write(src)
-        r = tlc("MC_Conc", name, workers=8, timeout=3000, tag="C18" + pre, heap="16g")
+        r = tlc("MC_Conc", name, workers=8, timeout=6000, tag="C18" + pre, heap="16g")
         chk.add_tlc(r, name)
         results.append(r)
         if not r.ok:
